@@ -33,9 +33,10 @@ func runC14(e *Env) {
 	}
 	c01Edges(e, s)
 	r.Rule("C14.refusal-propagates", "MPT/DCS", "a graph is admitted only after the checks passed", 3)
-	setup := e.Fn(schedRel, "(*ExecutionGraph).setup")
-	hasCycle := e.Fn(schedRel, "(*ExecutionGraph).hasCycle")
+	setup := e.graphRoles().Setup
+	hasCycle := e.graphRoles().HasCycle
 	if setup == nil || hasCycle == nil {
+		r.Unknown("graph setup / cycle test", "-", "the function adding the dependency edges, or the boolean test whose positive answer makes it fail, was not found")
 		return
 	}
 	// setup: nil returned only under hasCycle()==false
@@ -126,7 +127,7 @@ func runC14(e *Env) {
 		}
 	}
 
-	c14Kahn(e, hasCycle, e.FnQuiet(schedRel, "(*ExecutionGraph).addEdge"))
+	c14Kahn(e, hasCycle, e.graphRoles().AddEdge)
 
 	r.Rule("C14.graph-first", "DCS", "Agent.Run: nothing before the graph was built successfully", 5)
 	run := e.Fn("internal/agent", "(*Agent).Run")
